@@ -106,7 +106,7 @@ def check(ctx: Ctx) -> str:
         for h in ast.walk(fi.node):
             if isinstance(h, ast.ExceptHandler) and "Exception" in handler_types(h):
                 tr = getattr(h, "_parent", None)
-                ok = isinstance(tr, ast.Try) and len(tr.body) == 1 and ast.unparse(tr.body[0]) == "attr = str(argument)"
+                ok = isinstance(tr, ast.Try) and len(tr.body) == 1 and isinstance(tr.body[0], ast.Assign) and isinstance(tr.body[0].targets[0], ast.Name) and ast.unparse(tr.body[0].value) == "str(argument)"
                 ctx.check(ok, f"{spec}:broad", spec, "broad handler scope", "`except Exception` in getitem may only protect `attr = str(argument)`", fi.loc(h))
 
     ctx.rule("R2", "render / generate (sync and async, native too) catch Exception only to re-raise via handle_exception; handle_exception raises the object rewrite_traceback_stack returns, which is the original exception with a new traceback")
